@@ -334,6 +334,14 @@ def discharge(engine, ob, want_model=True, quick_ms=None):
     dt = time.time() - t0
     if r == z3.unsat:
         return "discharged", "z3", dt, None
+    if r != z3.sat and "pow10" in engine.specfns:
+        # exponent laws instantiated at the terms present; then quantifier-free
+        # nonlinear real arithmetic (nlsat) decides the goal
+        inst = pow10_instances(engine, ob)
+        qf = [p for p in ob.pc if not _has_quantifier(p)]
+        st2, be2, dt2, det2 = discharge_qf(qf + inst, ob.goal)
+        if st2 == "discharged":
+            return "discharged", be2 + "+pow10inst", time.time() - t0, None
     if r != z3.sat and ("PS" in engine.specfns or "card" in engine.specfns):
         # bag abstraction: the prodset axioms only fire on syntactic
         # store-terms; derive the needed instances by set matching
@@ -383,6 +391,29 @@ def _subterms(e, acc, seen):
         return
     for c in e.children():
         _subterms(c, acc, seen)
+
+
+def pow10_instances(engine, ob):
+    f = engine.specfns["pow10"][0]
+    acc, seen = [], set()
+    for e in list(ob.pc) + [ob.goal]:
+        _subterms(e, acc, seen)
+    args = []
+    for t in acc:
+        if z3.is_app(t) and t.decl().eq(f):
+            a = t.arg(0)
+            if not any(a.eq(x) for x in args):
+                args.append(a)
+    inst = [f(z3.RealVal(0)) == 1]
+    for a in args:
+        inst.append(f(a) > 0)
+    for a in args:
+        for b in args:
+            s_ = z3.simplify(a + b)
+            inst.append(f(s_) == f(a) * f(b))
+            d_ = z3.simplify(a - b)
+            inst.append(f(a) == f(d_) * f(b))
+    return inst
 
 
 def ps_hints(engine, ob):
